@@ -286,7 +286,19 @@ def h5_resources(timeout=100, **kw):
                          timeout, concretize=conc)
 
 
+def h6_getfont(timeout=200, part=None, **kw):
+    """every 3-call get_font history over nine fonts, among them two Type 1 fonts that recover DIFFERENT built-in encodings from their embedded font programs and two uses of a
+    standard-14 font with different /Differences: each font shows the text and widths its own dictionary / font program gives (C12.H4, run here as well)"""
+    from harness import C12
+    r = C12.h4_getfont(timeout=timeout, part=part)
+    r["harness"] = "H6_getfont"
+    return r
+
+
 def replay(harness, inp):
+    if harness == "H6_getfont":
+        from harness import C12
+        return C12.replay("H4_getfont", inp)
     import pdfminer.encodingdb as ed
     if harness == "H5_resources":
         return _check_resources(tuple(inp["order"]), inp["inline"], inp["caching"], inp["twice"])
@@ -359,7 +371,7 @@ def replay(harness, inp):
 
 
 def jobs(tier):
-    J = [Job("H3_precedence", "h3_precedence", {}, 100), Job("H5_resources", "h5_resources", {}, 100)]
+    J = [Job("H3_precedence", "h3_precedence", {}, 100), Job("H5_resources", "h5_resources", {}, 100), Job("H6_getfont", "h6_getfont", {}, 300)]
     for kind in ("uni4", "uni8", "u", "comp"):
         for k in range(2):
             J.append(Job("H2_names:%s:%d" % (kind, k), "h2_names", {"kind": kind, "part": [k, 2, 6]}, 300, "H2_names"))
